@@ -13,72 +13,47 @@ open UvModel.Utf8
 
 /-! ## UTF-8 decoding (`uv__utf8_decode1`) against Unicode Table 3-7 -/
 
-/-- The property as written in the record: `decode1` returns a scalar value iff the input starts
-    with a well-formed sequence, and then value and consumed length are right; -1 otherwise.
-    This is FALSE of the current code (see `utf8_accepts_iff_wellformed_false`). -/
-def utf8_accepts_iff_wellformed_statement : Prop :=
-  ∀ l : List Nat, Bytes l → l ≠ [] →
-    (∀ v n, spec l = some (v, n) → decode1 l = (some v, n)) ∧ (spec l = none → (decode1 l).1 = none)
-
-/-- NEGATION with a concrete witness: `E1 41 41` (a three-byte lead followed by two ASCII letters)
-    is accepted as U+1041.  The test `0x80 != (0xC0 & (b ^ c ^ d))` (idna.c:117) only looks at the
-    XOR of the trailing bytes. -/
-theorem utf8_accepts_iff_wellformed_false : ¬ utf8_accepts_iff_wellformed_statement := by
-  intro h
-  have := (h [0xE1, 0x41, 0x41] (by intro b hb; simp at hb; omega) (by simp)).2 (by decide)
-  revert this; decide
-
-/-- the witness, spelled out: ill-formed by Table 3-7, accepted by the code -/
-example : spec [0xE1, 0x41, 0x41] = none ∧ decode1 [0xE1, 0x41, 0x41] = (some 0x1041, 3) := by decide
-example : spec [0xF1, 0x20, 0x41, 0xC1] = none ∧ decode1 [0xF1, 0x20, 0x41, 0xC1] = (some 0x60041, 4) := by
-  decide
-
-/-- Completeness (full strength): whenever the input starts with a well-formed sequence, `decode1`
-    returns exactly its scalar value and consumes exactly its length. -/
-theorem utf8_wellformed_accepted (l : List Nat) (hl : Bytes l) (v n : Nat)
-    (h : spec l = some (v, n)) : decode1 l = (some v, n) := by
+/-- `uv__utf8_decode1` returns the value `v` and advances by `n` **iff** the input starts with a
+    well-formed sequence (Unicode Table 3-7) whose scalar value is `v` and whose length is `n`. -/
+theorem utf8_accepts_iff_wellformed (l : List Nat) (hl : Bytes l) (v n : Nat) :
+    decode1 l = (some v, n) ↔ spec l = some (v, n) := by
   rw [decode1_eq_A l hl]
   match l, hl with
-  | [], _ => simp [spec] at h
-  | [a], hl => exact A_of_spec_1 a v n (hl a (by simp)) h
-  | [a, b], hl => exact A_of_spec_2 a b v n (hl a (by simp)) (hl b (by simp)) h
-  | [a, b, c], hl => exact A_of_spec_3 a b c v n (hl a (by simp)) (hl b (by simp)) (hl c (by simp)) h
+  | [], _ => simp [spec, decode1A]
+  | [a], hl =>
+    exact ⟨spec_of_A_1 a v n (hl a (by simp)), A_of_spec_1 a v n (hl a (by simp))⟩
+  | [a, b], hl =>
+    exact ⟨spec_of_A_2 a b v n (hl a (by simp)) (hl b (by simp)),
+           A_of_spec_2 a b v n (hl a (by simp)) (hl b (by simp))⟩
+  | [a, b, c], hl =>
+    exact ⟨spec_of_A_3 a b c v n (hl a (by simp)) (hl b (by simp)) (hl c (by simp)),
+           A_of_spec_3 a b c v n (hl a (by simp)) (hl b (by simp)) (hl c (by simp))⟩
   | a :: b :: c :: d :: r, hl =>
-    exact A_of_spec_4 a b c d v n r (hl a (by simp)) (hl b (by simp)) (hl c (by simp)) (hl d (by simp)) h
+    exact ⟨spec_of_A_4 a b c d v n r (hl a (by simp)) (hl b (by simp)) (hl c (by simp)) (hl d (by simp)),
+           A_of_spec_4 a b c d v n r (hl a (by simp)) (hl b (by simp)) (hl c (by simp)) (hl d (by simp))⟩
 
 example : spec [0xF0, 0x9F, 0x98, 0x80, 0x41] = some (0x1F600, 4) := by decide
 example : spec [0xEF, 0xBD, 0xA1] = some (0xFF61, 3) := by decide
+example : decode1 [0xF4, 0x8F, 0xBF, 0xBF] = (some 0x10FFFF, 4) := by decide
 
-/-- Soundness on the inputs where at most one of the trailing bytes the decoder reads is not a
-    continuation byte (`FewBadX`; always true when the lead byte announces one trailing byte): a value
-    is returned only for a well-formed sequence, with its value and length. -/
-theorem utf8_accepted_wellformed_partial (l : List Nat) (hl : Bytes l) (hf : FewBadX l) (v n : Nat)
-    (h : decode1 l = (some v, n)) : spec l = some (v, n) := by
-  rw [decode1_eq_A l hl] at h
-  match l, hl with
-  | [], _ => simp [decode1A] at h
-  | [a], hl => exact spec_of_A_1 a v n (hl a (by simp)) h
-  | [a, b], hl => exact spec_of_A_2 a b v n (hl a (by simp)) (hl b (by simp)) h
-  | [a, b, c], hl =>
-    exact spec_of_A_3 a b c v n (hl a (by simp)) (hl b (by simp)) (hl c (by simp)) hf h
-  | a :: b :: c :: d :: r, hl =>
-    exact spec_of_A_4 a b c d v n r (hl a (by simp)) (hl b (by simp)) (hl c (by simp)) (hl d (by simp)) hf h
-
-/-- The statement of the record restricted to `FewBadX` inputs (what is missing for the full
-    statement: inputs with two or three non-continuation trailing bytes whose top bits cancel). -/
-theorem utf8_accepts_iff_wellformed_partial (l : List Nat) (hl : Bytes l) (hf : FewBadX l) :
-    (∀ v n, spec l = some (v, n) → decode1 l = (some v, n)) ∧ (spec l = none → (decode1 l).1 = none) := by
-  refine ⟨utf8_wellformed_accepted l hl, fun hs => ?_⟩
+/-- "-1 otherwise": anything that does not start with a well-formed sequence (ill-formed lead or
+    trailing byte, overlong form, surrogate, above U+10FFFF, cut short by the end of the input) is
+    rejected. -/
+theorem utf8_rejects_illformed (l : List Nat) (hl : Bytes l) (h : spec l = none) :
+    (decode1 l).1 = none := by
   cases hd : decode1 l with
   | mk r n =>
     cases r with
     | none => rfl
     | some v =>
-      have := utf8_accepted_wellformed_partial l hl hf v n hd
-      rw [hs] at this; cases this
+      have := (utf8_accepts_iff_wellformed l hl v n).mp hd
+      rw [h] at this; cases this
 
-example : FewBadX [0xE2, 0x82, 0x41] ∧ FewBadX [0xF0, 0x9F, 0x98, 0x80] ∧ ¬ FewBadX [0xE1, 0x41, 0x41] := by
-  refine ⟨?_, ?_, ?_⟩ <;> simp [FewBadX, nbad, isCont]
+-- formerly accepted (idna.c:117 tested only the XOR of the trailing bytes); overlongs; surrogates
+example : spec [0xE1, 0x41, 0x41] = none ∧ (decode1 [0xE1, 0x41, 0x41]).1 = none := by decide
+example : spec [0xF1, 0x20, 0x41, 0xC1] = none ∧ (decode1 [0xF1, 0x20, 0x41, 0xC1]).1 = none := by decide
+example : spec [0xC0, 0x80] = none ∧ spec [0xE0, 0x80, 0x80] = none ∧ spec [0xED, 0xA0, 0x80] = none ∧
+    spec [0xF4, 0x90, 0x80, 0x80] = none := by decide
 
 /-- A sequence cut short by the end of the input is rejected (the repaired L4 defect): a lead byte
     that announces more trailing bytes than remain never yields a value, whatever those bytes are. -/
